@@ -65,6 +65,26 @@ theorem betweenTokens_ws (f : Nat) (ws : Bytes) (hws : ws.all isSpace = true) (c
     · rfl
   · rw [hsk]
 
+theorem skipWSC_ws (f : Nat) (ws : Bytes) (hws : ws.all isSpace = true) (c : Char) (hc : isSpace c = false)
+    (hc2 : c ≠ '/') (r : Bytes) : skipWSC (f + 1) (ws ++ c :: r) = .ok (c :: r) := by
+  have hsk := skipWS_ws ws hws c hc r
+  simp only [skipWSC, hsk]
+  split
+  · rename_i h; injection h with h1 _; exact absurd h1 hc2
+  · rfl
+
+/-- before `#` (either shape of the code): white space is skipped, the stream stands at the next byte -/
+theorem beforeHash_ws (f : Nat) (ws : Bytes) (hws : ws.all isSpace = true) (c : Char) (hc : isSpace c = false)
+    (hc2 : c ≠ '/') (r : Bytes) : beforeHash (f + 1) (ws ++ c :: r) = .ok (c :: r) := by
+  unfold beforeHash
+  split
+  · exact skipWSC_ws f ws hws c hc hc2 r
+  · rw [skipWS_ws ws hws c hc r]
+    unfold leadComment
+    split
+    · rename_i h; injection h with h1 _; exact absurd h1 hc2
+    · rfl
+
 theorem kwLoop_kw (kw : Bytes) (hk : kw.all isKwChar = true) (tail : Bytes) (c : Char) (t : Bytes) (ht : tail = c :: t)
     (hc : isKwChar c = false) (hb : c ≠ '!') (hs : c ≠ '/') :
     ∀ (f : Nat) (acc : Bytes), kw.length + 1 ≤ f → kwLoop f acc (kw ++ tail) = .ok (acc.reverse ++ kw, tail) := by
@@ -154,13 +174,8 @@ theorem readInstanceNumber_ok (ws0 ws1 ds ws2 : Bytes) (h0 : ws0.all isSpace = t
   have hl : ¬ (d0 :: dt).length > instanceIdDigits := by omega
   have hz : ((d0 :: dt).length == 0) = false := by simp
   have hv : (digitsVal (d0 :: dt) == 0) = false := by simp; omega
-  have hlc : leadComment (f + 1) ('#' :: (ws1 ++ ((d0 :: dt) ++ (ws2 ++ ('=' :: u))))) =
-      .ok ('#' :: (ws1 ++ ((d0 :: dt) ++ (ws2 ++ ('=' :: u))))) := by
-    unfold leadComment
-    split
-    · rename_i h; injection h with h1 _; exact absurd h1 (by decide)
-    · rfl
-  simp only [readInstanceNumber, s0, hlc, s00, s1, htd, hbt, hl, hz, hv, ↓reduceIte, Bool.false_eq_true, Nat.min_eq_left dmax]
+  have hbh := beforeHash_ws f ws0 h0 '#' (by decide) (by decide) (ws1 ++ ((d0 :: dt) ++ (ws2 ++ ('=' :: u))))
+  simp only [readInstanceNumber, hbh, s00, s1, htd, hbt, hl, hz, hv, ↓reduceIte, Bool.false_eq_true, Nat.min_eq_left dmax]
 
 /-! ### the keyword -/
 
@@ -292,18 +307,12 @@ def endsec (ws ws' rest : Bytes) : Bytes := ws ++ ('E' :: 'N' :: 'D' :: 'S' :: '
 
 theorem nextInstance_endsec (ws ws' rest : Bytes) (hws : ws.all isSpace = true) (f : Nat) :
     nextInstance (f + 1) (endsec ws ws' rest) = .ok none := by
-  have s0 := skipWS_ws ws hws 'E' (by decide) ('N' :: 'D' :: 'S' :: 'E' :: 'C' :: (ws' ++ (';' :: rest)))
+  have hbh := beforeHash_ws f ws hws 'E' (by decide) (by decide) ('N' :: 'D' :: 'S' :: 'E' :: 'C' :: (ws' ++ (';' :: rest)))
   have s1 : skipWS ('E' :: 'N' :: 'D' :: 'S' :: 'E' :: 'C' :: (ws' ++ (';' :: rest))) =
       'E' :: 'N' :: 'D' :: 'S' :: 'E' :: 'C' :: (ws' ++ (';' :: rest)) := skipWS_nonspace _ _ (by decide)
-  have hlc : leadComment (f + 1) ('E' :: 'N' :: 'D' :: 'S' :: 'E' :: 'C' :: (ws' ++ (';' :: rest))) =
-      .ok ('E' :: 'N' :: 'D' :: 'S' :: 'E' :: 'C' :: (ws' ++ (';' :: rest))) := by
-    unfold leadComment
-    split
-    · rename_i h; injection h with h1 _; exact absurd h1 (by decide)
-    · rfl
   have hrn : readInstanceNumber (f + 1) (endsec ws ws' rest) = .ok (0, 'E' :: 'N' :: 'D' :: 'S' :: 'E' :: 'C' :: (ws' ++ (';' :: rest))) := by
     unfold readInstanceNumber endsec
-    rw [s0, hlc]
+    rw [hbh]
     simp only [s1]
     split
     · rename_i h; injection h with h1 _; exact absurd h1 (by decide)
